@@ -4,6 +4,7 @@ package dtls
 
 import (
 	"bytes"
+	"encoding/gob"
 	"errors"
 	"fmt"
 	"net"
@@ -11,6 +12,8 @@ import (
 	"testing"
 	"testing/synctest"
 	"time"
+
+	"github.com/pion/dtls/v3/pkg/protocol"
 )
 
 // C19 — exported state. After i payloads one way and j the other, side X's ConnectionState() is
@@ -475,6 +478,7 @@ func vfC19Corrupt(t *testing.T, res *vfResult, c vfC19Case, kind string, pos int
 		x, y = w.s, w.c
 	}
 	applied := false
+	structName := ""
 	mut := func(b []byte) []byte {
 		n := append([]byte(nil), b...)
 		p := pos % (len(n) + 1)
@@ -511,6 +515,23 @@ func vfC19Corrupt(t *testing.T, res *vfResult, c vfC19Case, kind string, pos int
 		case "append":
 			applied = true
 			n = append(n, bytes.Repeat([]byte{byte(pos)}, 1+pos%7)...)
+		case "struct":
+			// decode, put a boundary value into one field, encode again (values byte edits cannot reach)
+			var st serializedState
+			if err := gob.NewDecoder(bytes.NewReader(b)).Decode(&st); err != nil {
+				return n
+			}
+			edits := vfC19StructEdits()
+			e := edits[pos%len(edits)]
+			e.f(&st)
+			var buf bytes.Buffer
+			if err := gob.NewEncoder(&buf).Encode(st); err != nil {
+				return n
+			}
+			applied = true
+			structName = e.name
+
+			return buf.Bytes()
 		}
 
 		return n
@@ -538,6 +559,12 @@ func vfC19Corrupt(t *testing.T, res *vfResult, c vfC19Case, kind string, pos int
 			wrote[string(pl2)] = true
 		}
 	}
+	if kind == "struct" {
+		res.Seen("structured_corruptions", structName+" -> "+outcome)
+		if structName == "version=1.3" && err == nil {
+			res.Violate("C19:dtls13-state-accepted", "serialised bytes that declare DTLS 1.3 were accepted by UnmarshalBinary / ResumeWithOptions; "+c.ID(), replay)
+		}
+	}
 	res.Count("corruption/"+kind+"/"+outcome, 1)
 	res.Count("corrupted_states_fed", 1)
 	// safety: the untouched peer never delivers a payload nobody wrote
@@ -546,6 +573,50 @@ func vfC19Corrupt(t *testing.T, res *vfResult, c vfC19Case, kind string, pos int
 			res.Violate("C19:peer-delivered-unwritten-payload:"+kind, fmt.Sprintf("after resuming from corrupted bytes (%s at %d) the peer delivered %q, which nobody wrote; %s", kind, pos, r, c.ID()), replay)
 		}
 	}
+}
+
+type vfC19Edit struct {
+	name string
+	f    func(*serializedState)
+}
+
+// vfC19StructEdits: boundary values per field of the serialised state.
+func vfC19StructEdits() []vfC19Edit {
+	var es []vfC19Edit
+	for _, v := range []uint16{0, 2, 3, 255, 256, 32768, 65534, 65535} {
+		v := v
+		es = append(es, vfC19Edit{fmt.Sprintf("local-epoch=%d", v), func(s *serializedState) { s.LocalEpoch = v }})
+		es = append(es, vfC19Edit{fmt.Sprintf("remote-epoch=%d", v), func(s *serializedState) { s.RemoteEpoch = v }})
+	}
+	for _, v := range []uint64{0, 1<<48 - 1, 1 << 48, 1<<48 + 1, 1<<63 + 5, 1<<64 - 1} {
+		v := v
+		es = append(es, vfC19Edit{fmt.Sprintf("sequence=%d", v), func(s *serializedState) { s.SequenceNumber = v }})
+	}
+	for _, v := range []uint16{0, 1, 0x1301, 0xc02b, 0xc0a8, 0xffff} {
+		v := v
+		es = append(es, vfC19Edit{fmt.Sprintf("suite=%#04x", v), func(s *serializedState) { s.CipherSuiteID = v }})
+	}
+	for _, n := range []int{0, 1, 47, 49, 4096} {
+		n := n
+		es = append(es, vfC19Edit{fmt.Sprintf("master-secret-len=%d", n), func(s *serializedState) { s.MasterSecret = bytes.Repeat([]byte{7}, n) }})
+	}
+	for _, n := range []int{0, 1, 255, 256, 70000} {
+		n := n
+		es = append(es, vfC19Edit{fmt.Sprintf("local-cid-len=%d", n), func(s *serializedState) { s.LocalConnectionID = bytes.Repeat([]byte{9}, n) }})
+		es = append(es, vfC19Edit{fmt.Sprintf("remote-cid-len=%d", n), func(s *serializedState) { s.RemoteConnectionID = bytes.Repeat([]byte{9}, n) }})
+	}
+	es = append(es,
+		vfC19Edit{"srtp=0xffff", func(s *serializedState) { s.SRTPProtectionProfile = 0xffff }},
+		vfC19Edit{"role-flipped", func(s *serializedState) { s.IsClient = !s.IsClient }},
+		vfC19Edit{"randoms-swapped", func(s *serializedState) { s.LocalRandom, s.RemoteRandom = s.RemoteRandom, s.LocalRandom }},
+		vfC19Edit{"version=1.3", func(s *serializedState) { s.Version = protocol.Version1_3 }},
+		vfC19Edit{"version=0.0", func(s *serializedState) { s.Version = protocol.Version{} }},
+		vfC19Edit{"version=9.9", func(s *serializedState) { s.Version = protocol.Version{Major: 9, Minor: 9} }},
+		vfC19Edit{"mki-len=70000", func(s *serializedState) { s.PeerSRTPMKI = bytes.Repeat([]byte{1}, 70000) }},
+		vfC19Edit{"session-id-len=70000", func(s *serializedState) { s.SessionID = bytes.Repeat([]byte{1}, 70000) }},
+	)
+
+	return es
 }
 
 func vfC19Suites() []string {
@@ -637,6 +708,12 @@ func TestVF_C19(t *testing.T) {
 		}
 		for pos := 0; pos < 16; pos++ {
 			cors = append(cors, cor{b, "append", pos})
+		}
+		for pos := range vfC19StructEdits() {
+			cors = append(cors, cor{b, "struct", pos})
+			bs := b
+			bs.Side = map[string]string{"c": "s", "s": "c"}[b.Side]
+			cors = append(cors, cor{bs, "struct", pos})
 		}
 	}
 	vfBubbles(t, len(cors), func(t *testing.T, i int) { vfC19Corrupt(t, res, cors[i].c, cors[i].kind, cors[i].pos) })
